@@ -445,11 +445,12 @@ func resolveIncludePaths(basePath string, includes []ast.Include) []string {
 	return resolved
 }
 
-// adoptByPatternLocked looks after a file that no include directive names
-// literally: when an include pattern of a member matches its path, the
-// pattern is expanded anew (the file may have been created after the pattern
-// was last expanded) and the member's include list brought up to date. It
-// reports whether some member's list changed.
+// adoptByPatternLocked looks after a file that include patterns may match:
+// when a pattern of a member matches its path, that member's directives are
+// resolved anew (the file may have been created after the pattern was last
+// expanded, or be known so far only through a literal include further down)
+// and its include list brought up to date. It reports whether some member's
+// list changed.
 func (w *Workspace) adoptByPatternLocked(path string) bool {
 	if w.resolved == nil || w.index == nil {
 		return false
